@@ -128,7 +128,29 @@ def mesh_recipe(kind, geo, seed):
     else:
         raise ValueError(kind)
     t = U.apply_local_orders(kind, t, rng)
+    t = both_orientations(kind, p, t, rng)
     return {'kind': kind, 'p': p.tolist(), 't': t.tolist(), 'geo': geo}
+
+
+_HEXMIR = [int(np.where((U.REF_HEX == np.array([1 - c[0], c[1], c[2]])).all(axis=1))[0][0]) for c in U.REF_HEX]
+MIRROR = {'tri': [0, 2, 1], 'tet': [0, 1, 3, 2], 'quad': [0, 3, 2, 1], 'wedge': [0, 2, 1, 3, 5, 4], 'hex': _HEXMIR}
+FRAME = {'tri': (0, 1, 2), 'tet': (0, 1, 2, 3), 'quad': (0, 1, 3), 'wedge': (0, 1, 2, 3), 'hex': (7, 4, 5, 6)}
+
+
+def both_orientations(kind, p, t, rng):
+    """Mirror the local vertex order of one cell if necessary, so that the mesh has positively AND negatively oriented
+    cells (clockwise triangles / quadrilaterals, reflected tetrahedra / hexahedra / prisms): det DF < 0 is the
+    situation in which |det DF| and det DF, or a missing orientation factor, differ."""
+    fr = FRAME[kind]
+    sg = []
+    for c in range(t.shape[1]):
+        v = p[:, t[list(fr), c]]
+        sg.append(np.sign(np.linalg.det(v[:, 1:] - v[:, [0]])))
+    t = t.copy()
+    if not any(x < 0 for x in sg) or not any(x > 0 for x in sg):
+        c = int(rng.integers(t.shape[1]))
+        t[:, c] = t[MIRROR[kind], c]
+    return t
 
 
 SECOND = {'tri': 'MeshTri2', 'quad': 'MeshQuad2', 'tet': 'MeshTet2', 'hex': 'MeshHex2'}
@@ -230,7 +252,7 @@ EMPTY = {'Deriv': dict(src='value', dst='dphi', nc=1, pts=[]),
          'Wrap': dict(wrap='', N=0, outer=[], inner=[]),
          'Dual': dict(how='nodal', N=0, rows=[], M=[], X=[], verts=[], ents=[], S=[], lay=[], cnt=[], names=[], F=[],
                       pt=[], ord=1),
-         'PoU': dict(N=0, V=[])}
+         'PoU': dict(N=0, V=[]), 'Agree': dict(N=0, A=[], B=[])}
 
 
 def pairs_of(fields):
@@ -281,14 +303,44 @@ def exec_ref(rec):
                 continue
             ev, err = guarded(lambda: deriv_event(b, 'value', 'dphi', plans, res[0], res[1]), 120)
             events.append(ev if not err else err_event(b, 'Deriv', 'Malformed:' + err, **EMPTY['Deriv']))
-    # ---- Duality (nodal): phi_i at the DOF locations that exist
+        # ---- the same clause under call histories on the SAME instance: the nodes are visited one after the other
+        #      through one point buffer overwritten in place (hist = 1) / two alternating buffers (hist = 2); in every
+        #      buffer state all local indices are evaluated (what a finite-difference loop over a reused array does)
+        for nbuf in (1, 2):
+            sel = [lat[j] for j in sorted(rng.choice(len(lat), size=min(2, len(lat)), replace=False))]
+            plans, X = plan_points(kind, sel, unit_dirs(d), n, okw, rng, HS_REF)
+            if not plans:
+                continue
+            b = dict(base, tags={'mode': 'ref', 'hist': nbuf})
+            hidx = sorted(int(v) for v in rng.choice(N, size=min(N, int(rec.get('nhist', N))), replace=False))
+
+            def evaluate(buf, hidx=hidx):
+                out = []
+                for i in hidx:
+                    phi, dphi = e.lbasis(buf, i)
+                    out.append({'value': as_field(phi, buf.shape[1]), 'dphi': as_field(dphi, buf.shape[1])})
+                return [{k: (np.array(v[0]), v[1]) for k, v in r.items()} for r in out]
+            res, err = guarded(lambda: history_fields(evaluate, plans, X, nbuf), 120)
+            if err:
+                events.append(err_event(b, 'Deriv', err, **EMPTY['Deriv']))
+                continue
+            for r, i in enumerate(hidx):
+                bi = dict(b, i=i + 1, tags={'mode': 'ref', 'hist': nbuf, 'i': i + 1})
+                ev, err = guarded(lambda: deriv_event(bi, 'value', 'dphi', plans, res[r]['value'][0], res[r]['dphi'][0]), 120)
+                events.append(ev if not err else err_event(bi, 'Deriv', 'Malformed:' + err, **EMPTY['Deriv']))
+    # ---- Duality (nodal): phi_i at the DOF locations that exist -- handed over in a buffer that held other points
+    #      of the same shape in the previous calls (overwritten in place)
     if info['dual'] == 'nodal':
         b = dict(base, how='nodal', N=N, tags={'how': 'nodal'})
 
         def call():
             dl = np.asarray(e.doflocs, dtype=np.float64)
             rows = [j for j in range(dl.shape[0]) if np.isfinite(dl[j]).all()]
-            X = np.ascontiguousarray(dl[rows].T)
+            bufs = Buffers((dl.shape[1], len(rows)), 1)
+            X = bufs.load(np.array([lat[j % len(lat)] for j in range(len(rows))], dtype=np.float64).T / 8.0)
+            for i in range(N):
+                e.lbasis(X, i)
+            X = bufs.load(dl[rows].T)
             M = np.array([as_field(e.lbasis(X, i)[0], len(rows))[0][0] for i in range(N)])        # M[i][r]
             return {'rows': [j + 1 for j in rows], 'M': [fxs(M[:, r]) for r in range(len(rows))],
                     'X': [fxs(dl[j]) for j in rows]}
@@ -303,7 +355,11 @@ def exec_ref(rec):
         b = dict(base, N=N, tags={})
 
         def call():
-            X = np.array(lat, dtype=np.float64).T / 8.0
+            bufs = Buffers((d, len(lat)), 1)
+            X = bufs.load(np.array(lat[::-1], dtype=np.float64).T / 16.0)          # other points first, same buffer
+            for i in range(N):
+                e.lbasis(X, i)
+            X = bufs.load(np.array(lat, dtype=np.float64).T / 8.0)
             V = np.array([as_field(e.lbasis(X, i)[0], X.shape[1])[0][0] for i in range(N)])
             return [fxs(V[:, q]) for q in range(X.shape[1])]
         res, err = guarded(call, 60)
@@ -329,6 +385,72 @@ def _cell_fields(e, mapping, X, i, k):
             fd[nm] = (a.reshape((-1, X.shape[-1])), [int(s) for s in comp])
         res.append(fd)
     return res
+
+
+def _multi_fields(e, mapping, X3, i, cells):
+    """gbasis with per-element point arrays X3 (dim, ncells, npts) on several cells at once:
+    per output a dict name -> (array (ncomp, ncells, npts), component shape)."""
+    out = e.gbasis(mapping, X3, i, tind=np.array(cells, dtype=np.int64))
+    res = []
+    for df in out:
+        fd = {}
+        for nm, a in field_dict(df).items():
+            a = np.asarray(a, dtype=np.float64)
+            if a.ndim < 2 or a.shape[-2] != len(cells) or a.shape[-1] != X3.shape[-1]:
+                raise ValueError('unexpected field shape')
+            fd[nm] = (a.reshape((-1, len(cells), X3.shape[-1])), [int(v) for v in a.shape[:-2]])
+        res.append(fd)
+    return res
+
+
+def _map_records(d, DF, iDF, det, Ls, Gs):
+    out = []
+    for q in range(det.shape[0]):
+        out.append({'DF': [fxs(DF[r, :, q]) for r in range(d)], 'iDF': [fxs(iDF[r, :, q]) for r in range(d)],
+                    'det': fxs([det[q]])[0],
+                    'L': [{'v': fxs(lv[:, q]), 'd': fxs(ld[:, q])} for lv, ld in Ls],
+                    'G': [{'v': fxs(gv[:, q]), 'd': fxs(gd[:, q]), 'dn': dn} for gv, gd, dn in Gs]})
+    return out
+
+
+class Buffers:
+    """The point arrays of a call history on ONE element instance: `nbuf` array objects of one shape which are
+    overwritten IN PLACE (never re-allocated) and handed to the library in turn."""
+
+    def __init__(self, shape, nbuf):
+        self.bufs = [np.zeros(shape) for _ in range(nbuf)]
+        self.k = 0
+
+    def load(self, X):
+        b = self.bufs[self.k % len(self.bufs)]
+        self.k += 1
+        b[...] = X
+        return b
+
+
+def history_fields(evaluate, plans, X, nbuf, between=None):
+    """Visit the stencil nodes of `plans` one node index at a time: state (direction d, node j) holds, for every
+    point q of the plan, node j of direction d.  evaluate(buf) -> list (over local indices / outputs) of
+    (ncomp, nq) arrays ... returns the same structure assembled on the columns of X (the batched layout of the plan),
+    so that the events are built exactly as for a batched evaluation."""
+    nq = len(plans)
+    dim = len(plans[0]['win'])
+    n = plans[0]['win'][0][1]
+    bufs = Buffers((X.shape[0], nq), nbuf)
+    out = None
+    for d in range(dim):
+        for j in range(n):
+            cols = [pl['idx'][d][j] for pl in plans]
+            buf = bufs.load(X[:, cols])
+            res = evaluate(buf)
+            if between is not None:
+                between(buf)
+            if out is None:
+                out = [{nm: (np.full((a.shape[0], X.shape[1]), np.nan), comp) for nm, (a, comp) in r.items()} for r in res]
+            for r, o in zip(res, out):
+                for nm, (a, comp) in r.items():
+                    o[nm][0][:, cols] = a
+    return out
 
 
 def exec_cell(rec):
@@ -392,7 +514,7 @@ def exec_cell(rec):
                                 'L': [{'v': fxs(lv[:, q]), 'd': fxs(ld[:, q])} for lv, ld in Ls],
                                 'G': [{'v': fxs(gv[:, q]), 'd': fxs(gd[:, q]), 'dn': dn} for gv, gd, dn in Gs]})
                 return out
-            for percell in ((False, True) if k == cells[0] else (False,)):
+            for percell in (False, True):
                 res, err = guarded(lambda: call(percell=percell), 120)
                 if err:
                     events.append(err_event(base, 'Map', err, **EMPTY['Map']))
@@ -503,6 +625,126 @@ def exec_cell(rec):
             if not err:
                 ev['V'] = res
             events.append(ev)
+    tcells = np.array(cells, dtype=np.int64)
+    # ---------------- MappingRule with per-element point arrays on SEVERAL cells at once, different points per cell
+    if not wrapper and fam in ('H1', 'Hdiv', 'Hcurl', 'Matrix', 'Skeleton'):
+        def call():
+            npt = 2
+            Xs = [np.array([lat[j] for j in sorted(rng.choice(len(lat), size=npt, replace=False))], dtype=np.float64).T / 8.0
+                  for _ in cells]
+            X3 = np.stack(Xs, axis=1)                                   # (dim, ncells, npts)
+            DF = np.asarray(mapping.DF(X3, tind=tcells))
+            iDF = np.asarray(mapping.invDF(X3, tind=tcells))
+            det = np.asarray(mapping.detDF(X3, tind=tcells))
+            G = [_multi_fields(e, mapping, X3, i, cells)[0] for i in range(N)]
+            out = []
+            for c in range(len(cells)):
+                Ls, Gs = [], []
+                for i in range(N):
+                    phi, dphi = e.lbasis(Xs[c], i)
+                    lv, _ = as_field(phi, npt)
+                    ld = as_field(dphi, npt)[0] if dphi is not None else np.zeros((0, npt))
+                    dn = [nm for nm in ('grad', 'div', 'curl') if nm in G[i]]
+                    gd = G[i][dn[0]][0][:, c, :] if dn else np.zeros((0, npt))
+                    Ls.append((np.array(lv), np.array(ld)))
+                    Gs.append((G[i]['value'][0][:, c, :], gd, dn[0] if dn else ''))
+                out.append(_map_records(d, DF[:, :, c, :], iDF[:, :, c, :], det[c, :], Ls, Gs))
+            return out
+        res, err = guarded(call, 120)
+        if err:
+            events.append(err_event(base0, 'Map', err, **EMPTY['Map']))
+            events[-1]['tags'] = {'xs': 'multi'}
+        else:
+            for k, recs_k in zip(cells, res):
+                for q, r in enumerate(recs_k):
+                    ev = err_event(base0, 'Map', '', **r)
+                    ev['tags'] = {'cell': int(k), 'q': q, 'xs': 'multi'}
+                    events.append(ev)
+    deriv_ok = affine and not info['skeleton'] and (info['allglobal'] or not info['anyglobal']) and fam != 'Matrix'
+    if deriv_ok:
+        n = int(info['n_dir'] if info['allglobal'] else info['n_tot'])
+        okw1 = info['okwin']['1'][str(n)]
+        Xc = np.full((d, 1), 0.25)
+        dirs_of, verts_of = {}, {}
+        for k in cells:
+            iA = inv_exact(np.asarray(mapping.DF(Xc, tind=np.array([k], dtype=np.int64)))[:, :, 0, 0])
+            dirs_of[k] = (lambda X0, iA=iA: [[iA[r][c] for r in range(d)] for c in range(d)])
+            verts_of[k] = exact_ints(mesh.p[:, mesh.t[:, k]].T)
+        # ------------ MappedDerivative / GlobalDerivative with per-element point arrays: every cell has its own nodes
+        pidx = range(N) if N <= int(rec.get('npc', N)) else \
+            sorted(int(v) for v in rng.choice(N, size=int(rec['npc']), replace=False))
+        for i in pidx:
+            per = []
+            for k in cells:
+                sel = [lat[j] for j in sorted(rng.choice(len(lat), size=1, replace=False))]
+                per.append(plan_points(kind, sel, dirs_of[k], n, okw1, rng, HS_PHYS))
+            if any(not pl for pl, _ in per):
+                continue
+            M = max(X.shape[1] for _, X in per)
+            X3 = np.stack([np.hstack((X, np.repeat(X[:, -1:], M - X.shape[1], axis=1))) for _, X in per], axis=1)
+            b = dict(base0, i=i + 1, tags={'i': i + 1, 'xs': 'percell'})
+            res, err = guarded(lambda i=i, X3=X3: _multi_fields(e, mapping, X3, i, cells), 120)
+            if err:
+                events.append(err_event(b, 'Deriv', err, **EMPTY['Deriv']))
+                continue
+            for c, k in enumerate(cells):
+                for part, fd in enumerate(res, 1):
+                    bp = dict(b, part=part, verts=verts_of[k], tags={'i': i + 1, 'xs': 'percell', 'cell': int(k)})
+                    for src, dst in pairs_of(fd):
+                        ev, err = guarded(lambda: deriv_event(bp, src, dst, per[c][0], fd[src][0][:, c, :],
+                                                              fd[dst][0][:, c, :]), 120)
+                        events.append(ev if not err else err_event(bp, 'Deriv', 'Malformed:' + err, **EMPTY['Deriv']))
+        # ------------ the same under a call history on the SAME instance (one buffer overwritten in place / two
+        #              alternating buffers); for global elements every call is followed by a call on ANOTHER mesh
+        mesh2 = mapping2 = None
+        if info['anyglobal'] and rec.get('mesh2'):
+            mesh2 = build_mesh(rec['mesh2'])
+            mapping2 = mesh2.mapping()
+        for nbuf, k in zip((1, 2), (cells[-1], cells[0])):
+            sel = [lat[j] for j in sorted(rng.choice(len(lat), size=1, replace=False))]
+            plans, X = plan_points(kind, sel, dirs_of[k], n, okw1, rng, HS_PHYS)
+            if not plans:
+                continue
+            b = dict(base0, verts=verts_of[k], tags={'cell': int(k), 'hist': nbuf})
+            hidx = sorted(int(v) for v in rng.choice(N, size=min(N, int(rec.get('nhist', N))), replace=False))
+
+            def evaluate(buf, k=k, hidx=hidx):
+                out = []
+                for i in hidx:
+                    out += [{nm: (np.array(a), comp) for nm, (a, comp) in fd.items()}
+                            for fd in _cell_fields(e, mapping, buf, i, k)]
+                return out
+
+            def between(buf):
+                if mapping2 is not None:
+                    e.gbasis(mapping2, buf, 0, tind=np.array([0], dtype=np.int64))
+            res, err = guarded(lambda: history_fields(evaluate, plans, X, nbuf, between), 300)
+            if err:
+                events.append(err_event(b, 'Deriv', err, **EMPTY['Deriv']))
+                continue
+            nparts = len(res) // len(hidx)
+            for r, i in enumerate(hidx):
+                for part in range(1, nparts + 1):
+                    fd = res[r * nparts + part - 1]
+                    bp = dict(b, i=i + 1, part=part, tags={'cell': int(k), 'hist': nbuf, 'i': i + 1})
+                    for src, dst in pairs_of(fd):
+                        ev, err = guarded(lambda: deriv_event(bp, src, dst, plans, fd[src][0], fd[dst][0]), 120)
+                        events.append(ev if not err else err_event(bp, 'Deriv', 'Malformed:' + err, **EMPTY['Deriv']))
+    # ---------------- EvaluationFormsAgree: shared points vs the same points replicated per cell, all chosen cells
+    if not info['skeleton']:
+        b = dict(base0, N=N, tags={'how': 'agree'})
+
+        def call():
+            X = np.array([lat[j] for j in sorted(rng.choice(len(lat), size=2, replace=False))], dtype=np.float64).T / 8.0
+            X3 = np.ascontiguousarray(np.repeat(X[:, None, :], len(cells), axis=1))
+            A = [[field_records(df) for df in e.gbasis(mapping, X, i, tind=tcells)] for i in range(N)]
+            B = [[field_records(df) for df in e.gbasis(mapping, X3, i, tind=tcells)] for i in range(N)]
+            return A, B
+        res, err = guarded(call, 300)
+        ev = err_event(b, 'Agree', err, N=N, A=[], B=[])
+        if not err:
+            ev.update(A=res[0], B=res[1])
+        events.append(ev)
     # ---------------- Duality through the element's own functionals gdof (element_global.py:167-189)
     if info['fam'] == 'Global' and not wrapper and spec[0] == 'cls':
         b = dict(base0, how='gdof', N=N, tags={'how': 'gdof'})
@@ -600,7 +842,7 @@ def recipes(T, tier, seed):
         kind = info['kind']
         if info['leaf'] and info['fam'] != 'Global':
             out.append({'driver': 'ref', 'spec': spec, 'info': info, 'seed': seed + 1000 + n,
-                        'npts': 4 if quick else 0})
+                        'npts': 4 if quick else 0, 'nhist': 6 if quick else 64})
         geos = ['rect'] if info['geo'] == 'rect' else \
             (['affine', 'nonaffine'] if kind in ('quad', 'hex') and not info['anyglobal'] else ['affine'])
         if info['leaf'] and not info['anyglobal'] and kind in SECOND:
@@ -609,10 +851,16 @@ def recipes(T, tier, seed):
         nvar = 1 if (quick or kind == 'line' or (big and info['allglobal'])) else 3      # mesh variants per geometry class
         for g, geo in enumerate(geos):
             for v in range(nvar):
-                out.append({'driver': 'cell', 'spec': spec, 'info': info, 'seed': seed + 5000 + 40 * n + 4 * g + v,
-                            'mesh': mesh_recipe(kind, geo, seed + 100 + 29 * n + 4 * g + v), 'variant': v,
-                            'ncell': (1 if big else 2) if quick else (2 if big else 3),
-                            'nmap': 2 if quick else 4, 'nder': (1 if big else 2) if quick else (2 if big else 4)})
+                r = {'driver': 'cell', 'spec': spec, 'info': info, 'seed': seed + 5000 + 40 * n + 4 * g + v,
+                     'mesh': mesh_recipe(kind, geo, seed + 100 + 29 * n + 4 * g + v), 'variant': v,
+                     'ncell': 2 if (quick or big) else 3,               # always a positively and a negatively oriented cell
+                     'nmap': 2 if quick else 4, 'nder': (1 if big else 2) if quick else (2 if big else 4),
+                     # local indices per call history / per-element stencil (all of them unless the element is large)
+                     'nhist': (3 if big else 6) if quick else (6 if big else 16),
+                     'npc': (8 if big else 64) if quick else (16 if big else 64)}
+                if info['anyglobal']:
+                    r['mesh2'] = mesh_recipe(kind, geo, seed + 100 + 29 * n + 4 * g + v + 17)
+                out.append(r)
     return out
 
 
